@@ -18,7 +18,7 @@ structure Obj where
 def Obj.toParam (o : Obj) : Param :=
   .mk o.name o.bytePos o.bitPos (.value (.simple (.std .int32 o.enc o.hl o.bl none false) .int32 .identical) none)
 
-def Obj.ok (o : Obj) : Prop := int32Known o.enc = true ∧ 1 ≤ o.bl
+def Obj.ok (o : Obj) : Prop := int32Known o.enc = true ∧ 1 ≤ o.bl ∧ o.bl ≤ 64
 def Obj.bp (o : Obj) : Nat := o.bitPos.getD 0
 def Obj.k (o : Obj) : Nat := (o.bl + o.bp + 7) / 8
 def Obj.mask (o : Obj) : Nat := (2 ^ o.bl - 1) * 2 ^ o.bp
@@ -42,9 +42,10 @@ def encStep (o : Obj) (v : Int) (s : EncState) : EncState :=
 
 theorem encodeParam_obj (o : Obj) (ho : o.ok) (v : Int) (hr : int32InRange o.enc o.bl v) (fuel : Nat) (s : EncState) :
     encodeParam (fuel + 2) o.toParam (some (.atom (.int v))) s true = .ok ((), encStep o v s) := by
-  obtain ⟨hk, hbl⟩ := ho
+  obtain ⟨hk, hbl, hbl64⟩ := ho
   obtain ⟨h0, h1, _⟩ := int32Raw_spec o.enc hk o.bl hbl v hr
   have hb0 : o.bl ≠ 0 := by omega
+  have h64 : ¬ (64 < o.bl) := by omega
   have hge : ¬ (2 ^ o.bl ≤ (int32Raw o.enc o.bl v).toNat) := by
     have : ((2 ^ o.bl : Nat) : Int) = (2:Int) ^ o.bl := by simp
     omega
@@ -52,7 +53,7 @@ theorem encodeParam_obj (o : Obj) (ho : o.ok) (v : Int) (hr : int32InRange o.enc
     fun bp => Nat.not_le.mpr (mask_fits o.bl bp)
   simp [Obj.toParam, encodeParam, encodeDop, encodeDct, typeAdmits, emplaceAtomic, emplaceBytes, bind, pure, run_ite,
     run_bind, run_pure, run_getS, run_setS, run_modifyS, run_raise, BaseType.isNumeric,
-    rawOfInt32_ok o.enc hk o.bl hbl v hr, hb0, hge, hmask]
+    rawOfInt32_ok o.enc hk o.bl hbl v hr, hb0, hge, hmask, h64]
   cases hh : o.hl <;> cases hb : o.bytePos <;> simp [encStep, Obj.pos, Obj.k, Obj.bp, Obj.mask, ord, toBytesBE_length, hh, hb]
 
 /-- the decoder's effect for one object -/
@@ -64,8 +65,9 @@ def decStep (o : Obj) (d : DecState) : IVal × DecState :=
 theorem decodeParam_obj (o : Obj) (ho : o.ok) (fuel : Nat) (d : DecState)
     (hlen : o.pos d.origin d.cursorByte + o.k ≤ d.msg.length) :
     decodeParam (fuel + 2) o.toParam d true = .ok (.atom (decStep o d).1, (decStep o d).2) := by
-  obtain ⟨hk, hbl⟩ := ho
+  obtain ⟨hk, hbl, hbl64⟩ := ho
   have hb0 : o.bl ≠ 0 := by omega
+  have h64 : ¬ (64 < o.bl) := by omega
   unfold int32Known at hk
   simp only [Bool.or_eq_true, decide_eq_true_eq] at hk
   have hk' : o.enc = none ∨ o.enc = some Enc.onec ∨ o.enc = some Enc.twoc ∨ o.enc = some Enc.sm := by
@@ -75,7 +77,7 @@ theorem decodeParam_obj (o : Obj) (ho : o.ok) (fuel : Nat) (d : DecState)
   all_goals
     have hnl : ¬ (d.msg.length < _ + (o.bl + o.bitPos.getD 0 + 7) / 8) := Nat.not_lt.mpr hlen
     simp [Obj.toParam, decodeParam, decodeDop, decodeDct, extractAtomic, extractCore, convertRaw, bind, pure,
-      run_bind, run_pure, run_getS, run_modifyS, BaseType.isNumeric, hb0, hnl, hk', hb,
+      run_bind, run_pure, run_getS, run_modifyS, run_ite, run_raise, BaseType.isNumeric, hb0, hnl, hk', hb, h64,
       decStep, Obj.pos, Obj.k, Obj.bp]
 
 end OdxVerif.Codec
